@@ -357,9 +357,13 @@ func parseClassSet(sc *scanner) class {
 		case '-':
 			// a '-' right after the range operator is the upper end of the range: [a--]
 			if len(set.Classes) > 0 && !isrange {
-				sc.Next()
-				isrange = true
-				continue
+				// only a plain character starts a range; behind a class (%a) or behind a range
+				// the '-' stands for itself, as in matchbracketclass of lstrlib.c
+				if _, ok := set.Classes[len(set.Classes)-1].(*charClass); ok {
+					sc.Next()
+					isrange = true
+					continue
+				}
 			}
 			fallthrough
 		default:
